@@ -97,7 +97,7 @@ struct Model {
 
 static DIR_CTR: AtomicU64 = AtomicU64::new(0);
 
-fn scratch_dir() -> PathBuf {
+pub(crate) fn scratch_dir() -> PathBuf {
     let base = if Path::new("/dev/shm").is_dir() { PathBuf::from("/dev/shm") } else { verif_root().join("sim/target/scratch") };
     let p = base.join(format!("dcsim-c17-{}-{}", std::process::id(), DIR_CTR.fetch_add(1, Ordering::SeqCst)));
     let _ = std::fs::remove_dir_all(&p);
@@ -329,7 +329,7 @@ fn call_name(c: &Call) -> &'static str {
 }
 
 #[async_trait::async_trait(?Send)]
-trait Opener {
+pub(crate) trait Opener {
     type S: Storage;
     const NAME: &'static str;
     const PERSISTENT: bool;
@@ -337,7 +337,7 @@ trait Opener {
     async fn close(s: Self::S);
 }
 
-struct OSqlite;
+pub(crate) struct OSqlite;
 #[async_trait::async_trait(?Send)]
 impl Opener for OSqlite {
     type S = SqliteStorage;
@@ -355,7 +355,7 @@ impl Opener for OSqlite {
     }
 }
 
-struct OLmdb;
+pub(crate) struct OLmdb;
 #[async_trait::async_trait(?Send)]
 impl Opener for OLmdb {
     type S = LmdbStorage;
